@@ -357,10 +357,17 @@ def rule_i(repo, chk):
                         and isinstance(x.slice, ast.UnaryOp) and isinstance(x.slice.op, ast.USub) and isinstance(x.slice.operand, ast.Constant)):
                     continue
                 subject = norm(x.value.value)
+                # a local that was bound from another plain name (`sync_comp_for = scope_node`, possibly re-bound on some path) MAY be
+                # the node that name denotes: the type knowledge about that name applies to it on the path without the re-binding
+                subjects = {subject}
+                if isinstance(x.value.value, ast.Name):
+                    for a_ in stmts_in(f, ast.Assign):
+                        if len(a_.targets) == 1 and norm(a_.targets[0]) == subject and isinstance(a_.value, ast.Name):
+                            subjects.add(a_.value.id)
                 types = set()
                 for e, pol in dominating_facts(f, x):
                     if isinstance(e, ast.Compare) and len(e.ops) == 1 and isinstance(e.left, ast.Attribute) and e.left.attr == 'type' \
-                            and norm(e.left.value) == subject and ((isinstance(e.ops[0], (ast.Eq, ast.In)) and pol) or
+                            and norm(e.left.value) in subjects and ((isinstance(e.ops[0], (ast.Eq, ast.In)) and pol) or
                                                                    (isinstance(e.ops[0], (ast.NotEq, ast.NotIn)) and not pol)):
                         cmp_ = e.comparators[0]
                         types |= {v.value for v in cmp_.elts if isinstance(v, ast.Constant)} if isinstance(cmp_, (ast.Tuple, ast.List, ast.Set)) else \
